@@ -2,6 +2,7 @@ from checks._world_common import ASSUMPTIONS, COMPONENTS, simplify_knobs, simpli
 from sim.cancel_scenario import CancelScenario
 
 PROP = "C17"
+RUN_WALL_S = 600  # wall-clock limit of one simulated run (a run that never returns is a violation)
 LEVEL = "fault_enumeration"
 RUNS = {"quick": 600, "thorough": 20000}
 BUDGET_S = {"quick": 50, "thorough": 840}
